@@ -129,6 +129,46 @@ struct StackPointerOffsetAnalysis {
 }
 
 impl StackPointerOffsetAnalysis {
+    // If the expression is the stack pointer with constants added to or
+    // subtracted from it, the offset it evaluates to when the stack pointer is
+    // at `offset`. The value of any other expression (a constant, another
+    // register, a mask or a multiple of the stack pointer) is not an offset
+    // from the stack pointer at function entry.
+    fn offset_expression(
+        &self,
+        expression: &il::Expression,
+        offset: &il::Constant,
+    ) -> Option<il::Constant> {
+        // A sub-expression without scalars, e.g. an immediate with its shift
+        fn constant(expression: &il::Expression) -> Option<il::Constant> {
+            if expression.all_constants() {
+                eval(expression).ok()
+            } else {
+                None
+            }
+        }
+
+        match expression {
+            il::Expression::Scalar(scalar) if *scalar == self.stack_pointer => {
+                Some(offset.clone())
+            }
+            il::Expression::Add(lhs, rhs) => {
+                if let Some(rhs) = constant(rhs) {
+                    self.offset_expression(lhs, offset)?.add(&rhs).ok()
+                } else if let Some(lhs) = constant(lhs) {
+                    self.offset_expression(rhs, offset)?.add(&lhs).ok()
+                } else {
+                    None
+                }
+            }
+            il::Expression::Sub(lhs, rhs) => {
+                let rhs = constant(rhs)?;
+                self.offset_expression(lhs, offset)?.sub(&rhs).ok()
+            }
+            _ => None,
+        }
+    }
+
     // Handle an operation for stack pointer offset analysis
     fn handle_operation(
         &self,
@@ -142,12 +182,9 @@ impl StackPointerOffsetAnalysis {
                     match stack_pointer_offset {
                         IntermediateOffset::Top => IntermediateOffset::Top,
                         IntermediateOffset::Value(ref constant) => {
-                            let expr =
-                                src.replace_scalar(&self.stack_pointer, &constant.clone().into())?;
-                            if expr.all_constants() {
-                                IntermediateOffset::Value(eval(&expr)?)
-                            } else {
-                                IntermediateOffset::Top
+                            match self.offset_expression(src, constant) {
+                                Some(offset) => IntermediateOffset::Value(offset),
+                                None => IntermediateOffset::Top,
                             }
                         }
                         IntermediateOffset::Bottom => IntermediateOffset::Bottom,
